@@ -205,6 +205,14 @@ pub fn corruptions(placement: &str, fen: &str, in_check: bool, rng: &mut Rng) ->
             c[corner] = '.';
         }
         out.push((format!("right{right}norook"), join(&c, tok[1], &castle, tok[3])));
+        // (sixth wave, C09-f) the corner holds a rook of the WRONG colour / another own man instead of the own rook
+        let enemy_rook = if rook == 'R' { 'r' } else { 'R' };
+        let own_bishop = if rook == 'R' { 'B' } else { 'b' };
+        for (tag, man) in [("enemyrook", enemy_rook), ("ownbishop", own_bishop)] {
+            let mut c = cells.clone();
+            c[corner] = man;
+            out.push((format!("right{right}{tag}"), join(&c, tok[1], &castle, tok[3])));
+        }
         let mut c = cells.clone();
         if c[home] == king {
             c[home] = '.';
